@@ -3,6 +3,7 @@ package props
 import (
 	"fmt"
 	"strings"
+	"time"
 
 	corev1 "k8s.io/api/core/v1"
 
@@ -95,4 +96,72 @@ func oracleC08Concurrent(w *world.World, s *coop.Sched, final bool) *Finding {
 		return &Finding{Clause: "number-of-held-ips-differs-from-the-request", Detail: fmt.Sprintf("a-1 is bound with %s but holds %v in the tables and %v in the store", strings.Join(bound, ","), heldMem, heldStore)}
 	}
 	return nil
+}
+
+// c08DpReserveJob: a replacement pod of a reserving deployment that carries requested ranges while the deployment holds an IP
+// in reserve (galaxy does not support ranges for such pods: the request has to be refused without leaving anything behind; if
+// it were served, the pod would have to end up with exactly one IP per range).
+func c08DpReserveJob() Job {
+	name := "multi-ip/deployment-with-reserve"
+	return Job{Name: name, Weight: 1, Run: func(deadline time.Time) *ScenResult {
+		t0 := time.Now()
+		r := newCaseResult()
+		for _, pol := range []string{"immutable", "never"} {
+			for _, req := range c08Requests(2) {
+				for _, node := range []string{"n1", "n2"} {
+					w := world.New(c08Cfg)
+					if err := w.Start(); err != nil {
+						panic(err)
+					}
+					w.SetDeployment("ns", "d", 1)
+					old := world.PodSpec{Name: "d-r1-x", NS: "ns", OwnerKind: "ReplicaSet", OwnerName: "d-r1", Policy: pol}
+					w.CreatePod(old)
+					if _, err := w.Schedule(old.Key()); err != nil {
+						panic(err)
+					}
+					w.DeletePod(old.Key())
+					for len(w.Pending) > 0 {
+						w.Deliver(0)
+					}
+					repl := world.PodSpec{Name: "d-r1-y", NS: "ns", OwnerKind: "ReplicaSet", OwnerName: "d-r1", Policy: pol, Ranges: rangesJSON(req)}
+					p := w.CreatePod(repl)
+					key := keyOfSpec(repl).KeyInDB
+					desc := fmt.Sprintf("deployment (%s) with one IP in reserve, replacement pod requesting %s, node %s", pol, repl.Ranges, node)
+					r.evals++
+					offered, ferr := w.Filter(repl.Key())
+					ok := false
+					for _, n := range offered {
+						if n == node {
+							ok = true
+						}
+					}
+					bound := false
+					if ferr == nil && ok {
+						bound = w.Bind(p.Namespace, p.Name, string(p.UID), node) == nil
+					}
+					owned := ownedIPs(w, key)
+					r.distinct[hashOf(desc, bound, owned)] = true
+					switch {
+					case !bound && len(owned) > 0:
+						r.violate("C08", name, fmt.Sprintf("k=%d", len(req)), "ips-kept-by-a-pod-that-was-not-bound", "filter", fmt.Sprintf("%s: the pod was not bound but holds %v", desc, owned), []string{desc})
+					case bound && len(owned) != len(req):
+						r.violate("C08", name, fmt.Sprintf("k=%d", len(req)), "wrong-number-of-ips", "bind", fmt.Sprintf("%s: bound, holds %v", desc, owned), []string{desc})
+					case bound:
+						for _, ip := range owned {
+							in := false
+							for _, ri := range req {
+								if inRangeList(ip, c08Menu[ri]) {
+									in = true
+								}
+							}
+							if !in {
+								r.violate("C08", name, fmt.Sprintf("k=%d", len(req)), "ip-outside-its-range", "bind", fmt.Sprintf("%s: holds %v", desc, owned), []string{desc})
+							}
+						}
+					}
+				}
+			}
+		}
+		return r.toScen(name, t0, map[string]int{"k": 2})
+	}}
 }
